@@ -442,6 +442,7 @@ impl World {
         let r = catch_unwind(AssertUnwindSafe(|| {
             app.execute(sender, CosmosMsg::Wasm(WasmMsg::Execute { contract_addr: contract.to_string(), msg, funds }))
         }));
+        if let (Ok(Err(e)), true) = (&r, std::env::var("VERIF_DEBUG").is_ok()) { eprintln!("err: {}", format!("{:?}", e).replace("\n", " ")); }
         matches!(r, Ok(Ok(_)))
     }
 
